@@ -624,7 +624,10 @@ func (t *TCP) SetInternalPortsForTesting() {
 }
 
 func (t *TCP) VerifyChecksum() (error, gopacket.ChecksumVerificationResult) {
-	bytes := append(t.Contents, t.Payload...)
+	// Contents usually has spare capacity (it is a prefix of the packet data):
+	// a plain append would write the payload over itself inside the shared
+	// packet buffer, racing with every other reader of the packet. Force a copy.
+	bytes := append(t.Contents[:len(t.Contents):len(t.Contents)], t.Payload...)
 
 	existing := t.Checksum
 	verification, err := t.computeChecksum(bytes, IPProtocolTCP)
